@@ -38,10 +38,10 @@ for id in $ID $EXTRA; do
   echo "$line" | tee -a $LOG
   RES="$RES$line; "
 done
-python3 - "$ID" "$K" "$SUITE" "$DEMO_WITH" "$DEMO_WITHOUT" "$RES" <<'PY'
+DSTDIR=$DST python3 - "$ID" "$K" "$SUITE" "$DEMO_WITH" "$DEMO_WITHOUT" "$RES" <<'PY'
 import json, sys, os
 ID,K,suite,dw,dwo,res = sys.argv[1:7]
-d='/verif/seeded/%s-%s' % (ID,K)
+d=os.environ.get('DSTDIR') or '/verif/seeded/%s-%s' % (ID,K)
 try: am=json.load(open(d+'/agent_meta.json'))
 except Exception as e: am={"error": str(e)}
 meta={
